@@ -130,6 +130,7 @@ def query (st : St) (cmd : String) (arg : String) : List String :=
      s!"composite-size {bit (Spec.Linkage.compositeSizeRegion ds)}",
      s!"extern-init-after-static {bit (Spec.Linkage.externInitAfterStaticRegion ds)}",
      s!"flags-frozen-def {bit (Spec.Linkage.flagsFrozenDefRegion ds)}",
+     s!"dead-static-local-visible {bit (Spec.Linkage.deadStaticLocalVisibleRegion ds)}",
      s!"refs-ordered {bit (Spec.Linkage.refsOrdered ds [] [])}",
      s!"symbols-side {bit (Spec.Linkage.symbolsSide ds)}",
      s!"theorem-scope {bit (Spec.Linkage.symbolsScope ds)}"] ++
